@@ -173,28 +173,14 @@ func TestWorker(t *testing.T) {
 	debug.SetGCPercent(-1)
 	debug.SetMemoryLimit(6 << 30)
 
-	// Watchdog outside the bubble: real time.
+	// The local time zone is loaded lazily on first use (open/read of /etc/localtime): make that
+	// happen here, not in a goroutine of the system inside a run, where a real system call is a
+	// window in which the goroutine is invisible to the quiescence counters.
+	_, _ = time.Now().In(time.Local).Zone()
+
+	// The watchdog is in the runner (./check), not here: a goroutine that wakes on a real timer
+	// would be placed in front of whatever goroutine of the system happened to be next in line.
 	var lastRun atomic.Int64
-	go func() {
-		last := kernel.Progress
-		stuck := 0
-		for {
-			time.Sleep(5 * time.Second)
-			if kernel.Progress == last {
-				stuck++
-				if stuck >= 12 {
-					fmt.Fprintf(os.Stderr, "WATCHDOG: no controller progress for 60s in run %d\n", lastRun.Load())
-					buf := make([]byte, 1<<20)
-					n := runtime.Stack(buf, true)
-					os.Stderr.Write(buf[:n])
-					os.Exit(3)
-				}
-			} else {
-				stuck = 0
-				last = kernel.Progress
-			}
-		}
-	}()
 
 	if w.WarmCrypto {
 		cryptotest.SetGlobalRandom(t, 1)
